@@ -2,6 +2,8 @@ import FrappyProofs.Lemmas.Config
 import FrappyProofs.Lemmas.Merge
 import FrappyProofs.Lemmas.WriteLoop
 import FrappyProofs.Lemmas.ConfigDsl
+import FrappyProofs.Lemmas.ConfigAttach
+import FrappyProofs.Lemmas.ConfigAttachClean
 import FrappyModel.Klass.ConfigDT
 import FrappyModel.Generated.C10
 /-
@@ -462,6 +464,142 @@ theorem errors_complete (ops : Ops DT Val) :
             exact absurd h''.1.symm hne
         · exact this
 
+/-! ## module properties naming another module (`Attached`): the whole node -/
+
+/-- hypotheses about a node: distinct module names (a dict), well-formed classes -/
+structure NodeOk (mods : List (ModDecl DT Val)) : Prop where
+  names : (mods.map (·.name)).Nodup
+  classes : ∀ m ∈ mods, WellFormed m.cls
+
+open Lemmas.ConfigAttach in
+/-- never half applied, with the whole node at hand: every module of the node is reported as not created (with its
+non-empty error list), or reported as not initialised, or is registered with EVERY attachment its configuration gives
+applied — the module named exists on the node, is of the kind the property asks for, and is the attribute of the instance.
+For every datatype oracle, every reading `nameOf` of values as module names, every fuel-free node. -/
+theorem attachments_settled (ops : Ops DT Val) (nameOf : Val → Option Name) (mods : List (ModDecl DT Val))
+    (ok : NodeOk mods) (m : ModDecl DT Val) (hm : m ∈ mods) :
+    (∃ es, (m.name, es) ∈ (startNode ops nameOf mods).node.errors ∧ es ≠ []) ∨
+    m.name ∈ (startNode ops nameOf mods).init.errors.map (·.1) ∨
+    (∀ d ∈ m.attached, ∀ t, attGiven nameOf m d = some t →
+      targetOk mods d t = true ∧ (startNode ops nameOf mods).attachedOf m.name d.prop = some t) := by
+  have hnd : ((nodeCfgs mods).map (·.1)).Nodup := by
+    simpa [nodeCfgs, List.map_map, Function.comp_def] using ok.names
+  have hmem : (m.name, m.cls, m.cfg) ∈ nodeCfgs mods := List.mem_map_of_mem (f := fun m => (m.name, m.cls, m.cfg)) hm
+  have hc := errors_complete ops (nodeCfgs mods) ⟨[], []⟩ (fun _ _ => rfl) hnd _ hmem
+  cases happ : applyConfig ops m.cls m.cfg with
+  | error es => exact Or.inl ⟨es, (hc.2 es happ).1, (hc.2 es happ).2.1⟩
+  | ok i =>
+    refine Or.inr ?_
+    have hreg : (m.name, i) ∈ (createNode ops (nodeCfgs mods)).modules := hc.1 i happ
+    -- the registered instance of that name is this one
+    have hl : lookup m.name (createNode ops (nodeCfgs mods)).modules = some i := by
+      cases hl : lookup m.name (createNode ops (nodeCfgs mods)).modules with
+      | none => have := lookup_isSome_of_mem _ _ _ hreg; rw [hl] at this; cases this
+      | some i' =>
+        rcases createNode_sound ops (nodeCfgs mods) ⟨[], []⟩ m.name i' (lookup_mem _ _ _ hl) with h | ⟨m', hm', h1, h2⟩
+        · cases h
+        · obtain ⟨md, hmd, rfl⟩ := List.mem_map.1 hm'
+          have : md = m := name_determines (fun x : ModDecl DT Val => x.name) mods ok.names md hmd m hm h1
+          subst this
+          rw [happ] at h2; cases h2; rfl
+    let env : InitEnv DT Val := ⟨mods, createNode ops (nodeCfgs mods), nameOf⟩
+    have hdecl : declOf env m.name = some m := find?_of_nodup (fun x : ModDecl DT Val => x.name) mods ok.names m hm
+    obtain ⟨inv, hinit⟩ := initNode_spec env
+    have hini := hinit (m.name, i) hreg (by rw [hdecl]; rfl)
+    rcases inv.res m.name hini with herr | hres
+    · exact Or.inl herr
+    · refine Or.inr (fun d hd t hg => ?_)
+      have hat : attTarget nameOf i d = some t := by
+        rw [att_link ops nameOf m i (ok.classes m hm) happ d]; exact hg
+      obtain ⟨hk, hin⟩ := hres i m hl hdecl d hd t hat
+      exact ⟨targetOk_of_hasKind env d t hk, attachedOf_eq env _ inv.sound m.name d.prop t i hl hat hin⟩
+
+/-- `attached_applied`: "each configured module property … is applied to that instance", for properties naming another
+module.  On a node which starts, every attachment the configuration gives (configured value converted by the property's
+datatype, else the class value; the empty string is "not attached") names a module of the node of the kind asked for, and
+the attribute of the instance is that module — mandatory or optional property, used by the module's own initialisation or not -/
+theorem attached_applied (ops : Ops DT Val) (nameOf : Val → Option Name) (mods : List (ModDecl DT Val))
+    (ok : NodeOk mods) (hs : (startNode ops nameOf mods).starts = true) :
+    AttachedApplied nameOf mods (startNode ops nameOf mods).attachedOf := by
+  simp only [Started.starts, Bool.and_eq_true, List.isEmpty_iff] at hs
+  intro m hm d hd t hg
+  rcases attachments_settled ops nameOf mods ok m hm with ⟨es, he, _⟩ | h | h
+  · rw [hs.1] at he; cases he
+  · rw [hs.2] at h; cases h
+  · exact h d hd t hg
+
+/-- `bad_attachment_reported`: a module whose configuration names, for an attached-module property, a module the node
+does not have or one of the wrong kind, is among the failing modules reported (as not created or as not initialised), and
+the node does not start — whatever else the node contains, and whether or not the attribute is used during initialisation -/
+theorem bad_attachment_reported (ops : Ops DT Val) (nameOf : Val → Option Name) (mods : List (ModDecl DT Val))
+    (ok : NodeOk mods) (m : ModDecl DT Val) (hm : m ∈ mods) (hb : BadAttachment nameOf mods m) :
+    ((∃ es, (m.name, es) ∈ (startNode ops nameOf mods).node.errors ∧ es ≠ []) ∨
+      m.name ∈ (startNode ops nameOf mods).init.errors.map (·.1)) ∧
+    (startNode ops nameOf mods).starts = false := by
+  obtain ⟨d, t, hd, hg, hbad⟩ := hb
+  have key : (∃ es, (m.name, es) ∈ (startNode ops nameOf mods).node.errors ∧ es ≠ []) ∨
+      m.name ∈ (startNode ops nameOf mods).init.errors.map (·.1) := by
+    rcases attachments_settled ops nameOf mods ok m hm with h | h | h
+    · exact Or.inl h
+    · exact Or.inr h
+    · rw [(h d hd t hg).1] at hbad; cases hbad
+  refine ⟨key, ?_⟩
+  simp only [Started.starts, Bool.and_eq_false_iff, List.isEmpty_eq_false_iff]
+  rcases key with ⟨es, he, _⟩ | h
+  · exact Or.inl (List.ne_nil_of_mem he)
+  · right; intro hnil; rw [hnil] at h; cases h
+
+open Lemmas.ConfigAttach in
+/-- `attachments_accepted` — the converse of `bad_attachment_reported`: attachments without error never keep a node from
+starting.  If every module of the node is created, every attachment the configuration gives names a module of the node
+of the kind asked for, and no module is (transitively) attached to itself, then no module fails to initialise and the node
+starts — whatever the order of the modules, the depth of the attachments and the order in which a module asks for them. -/
+theorem attachments_accepted (ops : Ops DT Val) (nameOf : Val → Option Name) (mods : List (ModDecl DT Val))
+    (ok : NodeOk mods) (hcreated : (startNode ops nameOf mods).node.errors = [])
+    (hgood : ∀ m ∈ mods, ∀ d ∈ m.attached, ∀ t, attGiven nameOf m d = some t → targetOk mods d t = true)
+    (hacyc : acyclicB nameOf mods = true) :
+    (startNode ops nameOf mods).init.errors = [] ∧ (startNode ops nameOf mods).starts = true := by
+  have hnd : ((nodeCfgs mods).map (·.1)).Nodup := by
+    simpa [nodeCfgs, List.map_map, Function.comp_def] using ok.names
+  -- the instance registered under the name of a configured module is the one built from its configuration
+  have hinst : ∀ md ∈ mods, ∀ i, lookup md.name (createNode ops (nodeCfgs mods)).modules = some i →
+      applyConfig ops md.cls md.cfg = .ok i := by
+    intro md hmd i hl
+    rcases createNode_sound ops (nodeCfgs mods) ⟨[], []⟩ md.name i (lookup_mem _ _ _ hl) with h | ⟨m', hm', h1, h2⟩
+    · cases h
+    · obtain ⟨md', hmd', rfl⟩ := List.mem_map.1 hm'
+      have : md' = md := name_determines (fun x : ModDecl DT Val => x.name) mods ok.names md' hmd' md hmd h1
+      subst this; exact h2
+  let env : InitEnv DT Val := ⟨mods, createNode ops (nodeCfgs mods), nameOf⟩
+  have g : Good env := by
+    refine ⟨ok.names, fun md hmd => ?_, fun kv hkv => ?_, fun md hmd i hl d => ?_, hgood⟩
+    · have hmem : (md.name, md.cls, md.cfg) ∈ nodeCfgs mods :=
+        List.mem_map_of_mem (f := fun m => (m.name, m.cls, m.cfg)) hmd
+      have hc := errors_complete ops (nodeCfgs mods) ⟨[], []⟩ (fun _ _ => rfl) hnd _ hmem
+      cases happ : applyConfig ops md.cls md.cfg with
+      | error es =>
+        have := (hc.2 es happ).1
+        have hnil : (createNode ops (nodeCfgs mods)).errors = [] := hcreated
+        rw [show (nodeCfgs mods).foldl (createStep ops) ⟨[], []⟩ = createNode ops (nodeCfgs mods) from rfl, hnil] at this
+        cases this
+      | ok i => exact lookup_isSome_of_mem _ _ _ (hc.1 i happ)
+    · rcases createNode_sound ops (nodeCfgs mods) ⟨[], []⟩ kv.1 kv.2 hkv with h | ⟨m', hm', h1, _⟩
+      · cases h
+      · obtain ⟨md', hmd', rfl⟩ := List.mem_map.1 hm'
+        rw [← h1]; exact List.mem_map_of_mem (f := (·.name)) hmd'
+    · exact att_link ops nameOf md i (ok.classes md hmd) (hinst md hmd i hl) d
+  have hinit : (startNode ops nameOf mods).init.errors = [] := initNode_clean env g hacyc
+  refine ⟨hinit, ?_⟩
+  simp only [Started.starts, Bool.and_eq_true, List.isEmpty_iff]
+  exact ⟨hcreated, hinit⟩
+
+/-- the depth bound built into the model of `SecNode.get_module` (fuel: number of registered modules + 1) is never
+what ends an initialisation — for every node: the modules being initialised (`SecNode.initializing`) are distinct
+registered modules.  So `InitErr.fuel` is not an outcome, and the model is the unbounded recursion of the code. -/
+theorem init_fuel_suffices (ops : Ops DT Val) (nameOf : Val → Option Name) (mods : List (ModDecl DT Val)) :
+    ∀ e ∈ (startNode ops nameOf mods).init.errors, e.2 ≠ InitErr.fuel :=
+  Lemmas.ConfigAttach.initNode_nofuel _
+
 /-! ## merging -/
 
 /-- the definition a (sub)list of `Mod` calls of one file leaves for name `k`: the LAST one -/
@@ -717,6 +855,125 @@ example : modDict (fun _ => 42) 7 (exArgs ++ [("g", .group ["pa", "pc"])]) =
 
 /-- a group member without argument of its own: `KeyError`, the file does not load -/
 example : modDict (fun _ => 42) 7 (exArgs ++ [("g", .group ["zz"])]) = none := rfl
+
+/-! ### attached modules: a regulator `r` with an optional `out = Attached(KA)`, modules `t` (a `KA`) and `u` (not) -/
+
+/-- module names as values of the toy oracle: 1 ↦ "t", 2 ↦ "u", 3 ↦ "outt" (a typo), 4 ↦ "r", 0 ↦ not attached -/
+def toyName (v : Int) : Option Name :=
+  if v = 1 then some "t" else if v = 2 then some "u" else if v = 3 then some "outt" else if v = 4 then some "r" else none
+
+def exAttClass : ClassDesc (Int × Int) Int :=
+  { modProps := [⟨"description", some, true, none⟩, ⟨"out", some, false, none⟩], params := [exParam], otherNames := [] }
+
+def exReg (out : Option Int) : ModDecl (Int × Int) Int :=
+  { name := "r", cls := exAttClass,
+    cfg := [("description", .prop (.bare 7))] ++ (match out with | some v => [("out", .prop (.bare v))] | none => []),
+    kinds := ["Module"], attached := [⟨"out", "KA"⟩] }
+
+def exPlain (name : Name) (kinds : List Name) : ModDecl (Int × Int) Int :=
+  { name := name, cls := exClass, cfg := [("description", .prop (.bare 7))], kinds := kinds, attached := [] }
+
+def exNode (out : Option Int) : List (ModDecl (Int × Int) Int) :=
+  [exReg out, exPlain "t" ["Module", "KA"], exPlain "u" ["Module"]]
+
+theorem exAttClass_wf : WellFormed exAttClass :=
+  ⟨by decide, by decide, by intro pd hpd hl; simp [exAttClass, exParam] at hpd; subst hpd; simp at hl⟩
+
+/-- the hypotheses of the node theorems are met by the example node, whatever `out` is configured to -/
+theorem exNode_ok (out : Option Int) : NodeOk (exNode out) := by
+  refine ⟨by simp [exNode, exReg, exPlain], ?_⟩
+  intro m hm
+  simp only [exNode, List.mem_cons, List.not_mem_nil, or_false] at hm
+  rcases hm with rfl | rfl | rfl
+  · exact exAttClass_wf
+  · exact exClass_wf
+  · exact exClass_wf
+
+/-- `attached_applied` is not vacuous: `out='t'` — the node starts and the attribute of `r` is `t`; the regulator without
+output (`out` not configured, or `out=''`) starts as well, the attribute is `None` -/
+example : (startNode toyOps toyName (exNode (some 1))).starts = true ∧
+    attGiven toyName (exReg (some 1)) ⟨"out", "KA"⟩ = some "t" ∧
+    (startNode toyOps toyName (exNode (some 1))).attachedOf "r" "out" = some "t" ∧
+    (startNode toyOps toyName (exNode none)).starts = true ∧
+    (startNode toyOps toyName (exNode none)).attachedOf "r" "out" = none ∧
+    (startNode toyOps toyName (exNode (some 0))).starts = true := by decide +kernel
+
+/-- `bad_attachment_reported` is not vacuous: a typo in the module name (`out='outt'`) of the OPTIONAL property is a bad
+attachment by the specification … -/
+example : BadAttachment toyName (exNode (some 3)) (exReg (some 3)) :=
+  .mk ⟨"out", "KA"⟩ "outt" (by simp [exReg]) (by decide +kernel) (by decide +kernel)
+
+/-- … and so is a module of the wrong kind (`out='u'`, `u` is not a `KA`) -/
+example : BadAttachment toyName (exNode (some 2)) (exReg (some 2)) :=
+  .mk ⟨"out", "KA"⟩ "u" (by simp [exReg]) (by decide +kernel) (by decide +kernel)
+
+/-- what the model reports for them: `r` is created, fails to initialise, the node does not start -/
+example : (startNode toyOps toyName (exNode (some 3))).init.errors = [("r", .noSuchModule "out" "outt")] ∧
+    (startNode toyOps toyName (exNode (some 2))).init.errors = [("r", .wrongKind "out" "u")] ∧
+    (startNode toyOps toyName (exNode (some 3))).starts = false ∧
+    (startNode toyOps toyName (exNode (some 3))).node.modules.map (·.1) = ["r", "t", "u"] := by decide +kernel
+
+/-- a module which needs itself (`out='r'` with `r` a `KA`): reported, not started; the fuel is not what ends it -/
+example : (startNode toyOps toyName [{ exReg (some 4) with kinds := ["Module", "KA"] }]).init.errors =
+    [("r", .cyclic "out" "r")] := by decide +kernel
+
+/-- the attached module's own constructor fails (`t` has an unknown name in its cfg): `t` is reported as not created, its
+constructor is run a second time for `r`, `r` is reported as not initialised -/
+example : (startNode toyOps toyName [exReg (some 1),
+      { exPlain "t" ["Module", "KA"] with cfg := [("description", .prop (.bare 7)), ("zz", .prop (.bare 1))] }]).init.errors =
+      [("r", .doesNotExist "out" "t")] ∧
+    (startNode toyOps toyName [exReg (some 1),
+      { exPlain "t" ["Module", "KA"] with cfg := [("description", .prop (.bare 7)), ("zz", .prop (.bare 1))] }]).init.recreated = ["t"] := by
+  decide +kernel
+
+/-- a chain `r → t → u` of attachments (as deep as the node is large): initialised depth first, all applied, started -/
+example : (startNode toyOps toyName [exReg (some 1), { exReg (some 2) with name := "t", kinds := ["Module", "KA"] },
+      exPlain "u" ["Module", "KA"]]).init.initialized = ["u", "t", "r"] ∧
+    (startNode toyOps toyName [exReg (some 1), { exReg (some 2) with name := "t", kinds := ["Module", "KA"] },
+      exPlain "u" ["Module", "KA"]]).attachedOf "t" "out" = some "u" ∧
+    (startNode toyOps toyName [exReg (some 1), { exReg (some 2) with name := "t", kinds := ["Module", "KA"] },
+      exPlain "u" ["Module", "KA"]]).starts = true := by decide +kernel
+
+/-- the hypotheses of `attachments_accepted` are met by the chain `r → t → u` and by the node with `out='t'` -/
+example : acyclicB toyName [exReg (some 1), { exReg (some 2) with name := "t", kinds := ["Module", "KA"] },
+      exPlain "u" ["Module", "KA"]] = true ∧ acyclicB toyName (exNode (some 1)) = true ∧
+    (startNode toyOps toyName (exNode (some 1))).node.errors = [] ∧
+    targetOk (exNode (some 1)) ⟨"out", "KA"⟩ "t" = true := by decide +kernel
+
+/-- … and `acyclicB` does exclude something: a module which needs itself, two modules which need each other -/
+example : acyclicB toyName [{ exReg (some 4) with kinds := ["Module", "KA"] }] = false ∧
+    acyclicB toyName [exReg (some 1), { exReg (some 4) with name := "t", kinds := ["Module", "KA"] }] = false := by
+  decide +kernel
+
+/-- the monitor the driver runs on every observed node judges exactly the specification: if `attachedB` says `true` then,
+on the observation, (1) a node which starts has every given attachment applied (`AttachedApplied` with the observed
+attributes), and (2) every module with a bad attachment is reported and the node does not start -/
+theorem attachedB_sound (nameOf : Val → Option Name) (mods : List (ModDecl DT Val)) (n : ObsNode)
+    (h : attachedB nameOf mods n = true) :
+    (n.starts = true → AttachedApplied nameOf mods n.attachedOf) ∧
+    (∀ m ∈ mods, BadAttachment nameOf mods m →
+      n.starts = false ∧ (m.name ∈ n.reported ∨ m.name ∈ n.initReported)) := by
+  simp only [attachedB, List.all_eq_true] at h
+  constructor
+  · intro hs m hm d hd t hg
+    have := h m hm d hd
+    rw [hg] at this
+    cases hok : targetOk mods d t with
+    | true => simp only [hok, ↓reduceIte, hs, Bool.not_true, Bool.false_or, beq_iff_eq] at this; exact ⟨rfl, this⟩
+    | false => simp [hok, hs] at this
+  · intro m hm ⟨d, t, hd, hg, hbad⟩
+    have := h m hm d hd
+    rw [hg] at this
+    simp only [hbad, Bool.false_eq_true, ↓reduceIte, Bool.and_eq_true, Bool.not_eq_true', Bool.or_eq_true,
+      List.contains_eq_mem, decide_eq_true_eq] at this
+    exact this
+
+/-- `attachedB_sound` is not vacuous: the observation of the started example node passes the monitor, the same node
+observed as started with a typo in `out` does not -/
+example : attachedB toyName (exNode (some 1)) ⟨["r", "t", "u"], ["r", "t", "u"], [], true, [], [("r", "out", some "t")]⟩ = true ∧
+    attachedB toyName (exNode (some 3)) ⟨["r", "t", "u"], ["r", "t", "u"], [], true, [], [("r", "out", none)]⟩ = false ∧
+    attachedB toyName (exNode (some 3)) ⟨["r", "t", "u"], ["r", "t", "u"], [], false, ["r"], []⟩ = true := by
+  decide +kernel
 
 /-- merging on a concrete example: three files, `b` defined in all of them, `c` only in the third -/
 example : mergeB (· == ·)
